@@ -215,6 +215,54 @@ fn helpers(st: &mut Stats, quick: bool) {
     *st = std::mem::take(st).merge(stats);
 }
 
+/// CompareTensors::compare / scalar_compare on pairs of diagrams (they evaluate their arguments themselves)
+fn compare_pairs(st: &mut Stats, quick: bool) {
+    let mut all: Vec<DiagSpec> = vec![];
+    let phis: Vec<Ph> = if quick { vec![(0, 1), (1, 4), (1, 1)] } else { PHI6.to_vec() };
+    for base in structures_upto(1, 2, false) {
+        for_phases(&base, &phis, |d| all.push(d.clone()));
+    }
+    let graphs: Vec<quizx::vec_graph::Graph> = all
+        .iter()
+        .enumerate()
+        .map(|(i, d)| {
+            let mut g: quizx::vec_graph::Graph = d.build();
+            // a few different scalars so that proportional-but-unequal pairs occur
+            match i % 3 {
+                1 => g.scalar_mut().mul_sqrt2_pow(1),
+                2 => g.scalar_mut().mul_phase(num::Rational64::new(1, 4)),
+                _ => {}
+            }
+            g
+        })
+        .collect();
+    let tens: Vec<Tensor> = graphs.iter().map(|g| eval_graph(g, None)).collect();
+    let stats = sweep(&graphs, |st, i, a| {
+        for (j, b) in graphs.iter().enumerate() {
+            if all[i].inputs.len() + all[i].outputs.len() != all[j].inputs.len() + all[j].outputs.len() {
+                continue; // different tensor ranks: out of the helpers' stated domain for compare (== on different shapes)
+            }
+            st.inc("cases");
+            st.inc("evaluations");
+            let (eq, prop) = (tensors_equal(&tens[i], &tens[j]), tensors_prop(&tens[i], &tens[j]));
+            let wit = || json!({"kind": "compare", "a": all[i].to_json(), "b": all[j].to_json(), "scalars": [i % 3, j % 3]});
+            match guarded(|| (Tensor4::compare(a, b), Tensor4::scalar_compare(a, b))) {
+                Err(p) => st.violation(Violation { sig: "compare|panic".into(), detail: p, witness: wit() }),
+                Ok((c, sc)) => {
+                    if c != eq {
+                        st.violation(Violation { sig: format!("compare|wrong|got={}", c), detail: format!("Tensor4::compare = {}, the diagrams' reference tensors are equal = {}", c, eq), witness: wit() });
+                    } else if sc != prop {
+                        st.violation(Violation { sig: format!("scalar_compare|wrong|got={}", sc), detail: format!("Tensor4::scalar_compare = {}, proportional = {}", sc, prop), witness: wit() });
+                    } else if prop && !eq {
+                        st.inc("nontrivial");
+                    }
+                }
+            }
+        }
+    });
+    *st = std::mem::take(st).merge(stats);
+}
+
 pub fn run(rep: &mut Report) {
     rep.rule = "case = one diagram or circuit (per back end) or one ordered pair of small tensors; every tensor entry is compared with the reference state sum / gate-matrix product; non-trivial = evaluated without panic and agreed entry by entry (helpers: proportional-but-unequal pairs)".into();
     rep.assume("Tensor4 entries are read through the raw-parts hook; TensorF compared at 1e-9 relative to the largest entry");
@@ -256,6 +304,12 @@ pub fn run(rep: &mut Report) {
             watch_end();
         });
         rep.absorb(name, &format!("every circuit with <= {} gates over {} gate instances on {} qubits: circuit evaluator vs gate-matrix simulator, and its diagram vs the state sum", d, alpha.len(), q), true, None, t0, stats);
+    }
+    {
+        let t0 = Instant::now();
+        let mut st = Stats::default();
+        compare_pairs(&mut st, quick);
+        rep.absorb("compare on diagram pairs", "Tensor4::compare / scalar_compare on every ordered pair of same-arity diagrams of D(1,2,Phi) with three different scalars, against equality / proportionality of the reference tensors", true, None, t0, st);
     }
     let t0 = Instant::now();
     let mut st = Stats::default();
